@@ -43,9 +43,10 @@ type ReSpec struct {
 	ReplBuf   int    `json:"repl_buf,omitempty"`    // MaxCachedReplaceBufferLength: 0 = default, -9 = 0
 	NoBitmap  bool   `json:"no_bitmap,omitempty"`
 	KeepOrder bool   `json:"maintain_capture_order,omitempty"`
-	TimeoutNs int64  `json:"timeout_ns,omitempty"` // MatchTimeout set before the Regexp is shared (0: none)
-	Private   int    `json:"private,omitempty"`    // 1+client index if only that client uses it
-	Via       int    `json:"via,omitempty"`        // 1: the Regexp the clients use is obtained by MarshalText + UnmarshalText into a zero value
+	CodeGen   bool   `json:"is_code_gen,omitempty"` // OptionIsCodeGen: the more expensive compile-time analysis (other candidate-search modes)
+	TimeoutNs int64  `json:"timeout_ns,omitempty"`  // MatchTimeout set before the Regexp is shared (0: none)
+	Private   int    `json:"private,omitempty"`     // 1+client index if only that client uses it
+	Via       int    `json:"via,omitempty"`         // 1: the Regexp the clients use is obtained by MarshalText + UnmarshalText into a zero value
 }
 
 // InputSpec describes a text as Pre + Unit×Rep + Suf (so that long inputs stay short in a run file and shrink well).
